@@ -67,6 +67,7 @@ type MapObj struct {
 	Entries  map[string]Value // key term string -> value
 	KeyTerms map[string]Term
 	Typ      *types.Map
+	Havocked bool // content unknown (havocked by a loop rule)
 	Fresh    bool // created by make() on this path: certainly non-nil
 	NilT     Term // symbolic "map is nil" flag for input maps ("" = certainly non-nil)
 	Len      Term // symbolic length, when tracked ("" = unknown)
